@@ -141,56 +141,36 @@ def explicit_base_order(valid_ids, element_ids, derived=()):
 def display_order(valid_ids, subs, explicit_ids=None, hidden=(), derived_anchor=None):
     """Anchored display order (signed) after removing hidden/pruned base positions.
 
-    `derived_anchor`: {position: ("top"|"bottom"|(alias, "before"|"after"))} for derived MR
-    items; only used with an explicit order (payload order keeps them where zz9 put them).
+    `derived_anchor`: {position: "top" | "bottom" | None | (alias, "before"|"after")} for the
+    derived (zz9-inserted) items of an MR dimension. It only matters under an explicit order:
+    payload order keeps derived items where the back end put them. MR dimensions carry no
+    subtotals, so the two mechanisms never meet.
     """
+    n = len(valid_ids)
     if explicit_ids is None:
-        base = list(range(len(valid_ids)))
-        seq = anchored_sequence(base, valid_ids, subs)
+        seq = anchored_sequence(list(range(n)), valid_ids, subs)
+    elif not derived_anchor:
+        seq = anchored_sequence(explicit_base_order(valid_ids, explicit_ids), valid_ids, subs)
     else:
-        derived = sorted((derived_anchor or {}).keys())
+        derived = sorted(derived_anchor)
         base = explicit_base_order(valid_ids, explicit_ids, derived)
-        seq = anchored_sequence(base, valid_ids, subs)
-        # derived items re-anchored around their anchor alias
-        tops, bottoms = [], []
-        before, after = {}, {}
+        shown = set(valid_ids[p] for p in base)
+        tops, bottoms, before, after = [], [], {}, {}
         for p in derived:
             a = derived_anchor[p]
             if a == "top":
                 tops.append(p)
             elif a == "bottom" or a is None:
                 bottoms.append(p)
+            elif a[0] in shown:
+                (before if a[1] == "before" else after).setdefault(a[0], []).append(p)
             else:
-                alias, where = a
-                if alias in [valid_ids[q] for q in base]:
-                    (before if where == "before" else after).setdefault(alias, []).append(p)
-                else:
-                    bottoms.append(p)
-        out = list(tops)
-        # subtotals anchored "top" come before base elements but the library sorts
-        # (position, rel, idx): top insertions (-1, 0, neg) sort before top derived (-1, 0, p)
-        # because neg < p.
-        top_subs = [e for e in seq if e < 0 and subs[e + len(subs)]["anchor"] == "top"]
-        rest = [e for e in seq if not (e < 0 and subs[e + len(subs)]["anchor"] == "top")]
-        out = top_subs + tops
-        i = 0
-        while i < len(rest):
-            e = rest[i]
-            if e >= 0:
-                out += before.get(valid_ids[e], [])
-                out.append(e)
-                i += 1
-                # subtotals anchored after this element come right after it (rel=1, neg idx)
-                while i < len(rest) and rest[i] < 0 and \
-                        subs[rest[i] + len(subs)]["anchor"] == valid_ids[e]:
-                    out.append(rest[i])
-                    i += 1
-                out += after.get(valid_ids[e], [])
-            else:
-                # bottom subtotals: (maxsize, 0, neg) sort before bottom derived (maxsize, 0, p)
-                out.append(e)
-                i += 1
-        out += bottoms
-        seq = out
+                bottoms.append(p)
+        seq = list(tops)
+        for e in base:
+            seq += before.get(valid_ids[e], []) + [e] + after.get(valid_ids[e], [])
+        seq += bottoms
+        if subs:  # not reachable through the public API; keep subtotals at the bottom
+            seq += [k - len(subs) for k in range(len(subs))]
     hid = set(hidden)
     return [e for e in seq if e < 0 or e not in hid]
